@@ -255,7 +255,9 @@ class ForwardMonitor(Monitor):
         ctx.stat(f"op.judged.{step['op']}")
         h = jhash([irutil.fingerprint(old._loopir_proc, alpha=True), step_brief(step)])
         ctx.distinct(h)
-        self.check_pair(sess, step, to - 1, to)
+        n = self.check_pair(sess, step, to - 1, to)
+        if ctx._nsamples < 2:
+            ctx.sample({"op": step["op"], "before": sstr(old, 900), "after": sstr(result.proc, 900), "cursors_forwarded": n, "counters": {k: v for k, v in ctx._stats.items() if k.startswith("forward.")}}, limit=2)
         # chains: from an ancestor further back
         if to >= 2:
             back = ctx.rng.randint(2, min(to, 6))
@@ -437,6 +439,8 @@ class PurityMonitor(Monitor):
         h = jhash([irutil.fingerprint(old._loopir_proc, alpha=True), step_brief(step), phase])
         ctx.distinct(h)
         bad = self.check(sess, step, phase)
+        if ctx._nsamples < 2:
+            ctx.sample({"op": step["op"], "outcome": phase, "exception": type(result.exc).__name__ if result.exc is not None else None, "procedures_fingerprinted": len(self.registry), "cursors_rechecked": len(self.cursors), "input_procedure": sstr(old, 900)}, limit=2)
         if result.status == "accepted":
             self.note_all(sess)
             if result.extra:
